@@ -67,13 +67,13 @@ func parseOrExpression(tokens []string) (*ExprNode, []string, error) {
 
 // parseAndExpression parses AND expression
 func parseAndExpression(tokens []string) (*ExprNode, []string, error) {
-	left, remaining, err := parseComparisonExpression(tokens)
+	left, remaining, err := parseNotExpression(tokens)
 	if err != nil {
 		return nil, nil, err
 	}
 
 	for len(remaining) > 0 && strings.ToUpper(remaining[0]) == "AND" {
-		right, newRemaining, err := parseComparisonExpression(remaining[1:])
+		right, newRemaining, err := parseNotExpression(remaining[1:])
 		if err != nil {
 			return nil, nil, err
 		}
@@ -88,6 +88,25 @@ func parseAndExpression(tokens []string) (*ExprNode, []string, error) {
 	}
 
 	return left, remaining, nil
+}
+
+// parseNotExpression parses a NOT expression. NOT binds weaker than comparison
+// and stronger than AND: NOT a = b AND c is (NOT (a = b)) AND c.
+func parseNotExpression(tokens []string) (*ExprNode, []string, error) {
+	if len(tokens) > 1 && strings.ToUpper(tokens[0]) == "NOT" {
+		operand, remaining, err := parseNotExpression(tokens[1:])
+		if err != nil {
+			return nil, nil, err
+		}
+
+		return &ExprNode{
+			Type:  TypeOperator,
+			Value: "NOT",
+			Left:  operand,
+		}, remaining, nil
+	}
+
+	return parseComparisonExpression(tokens)
 }
 
 // parseComparisonExpression parses comparison expression
